@@ -29,6 +29,7 @@
         - txsRootFeatures in list form with features = 0                                    (finding F5)
         - the empty LIST 0xc0 for a nil optional pointer (clause.To, DependsOn); the encoder writes 0x80.        *)
 EXTENDS Integers, Sequences, FiniteSets, TLC
+LOCAL INSTANCE SequencesExt          \* FoldLeft (CommunityModules)
 
 CONSTANTS MaxClauses,   \* tx.MaxClausesPerTx          (2500 in the code under test)
           MaxUnused     \* tx.MaxUnusedReservedFields  (2)
@@ -207,7 +208,7 @@ DecTRF(b, h) ==
   ELSE IF IsStr(b, h) /\ CLen(h) = HashLen THEN Ok([root |-> Content(b, h), features |-> <<>>], h.ce)
   ELSE Bad
 
-RECURSIVE Dec(_, _, _, _), DecFields(_, _, _, _, _, _), DecElems(_, _, _, _, _)
+RECURSIVE Dec(_, _, _, _), DecFields(_, _, _, _, _, _), DecElems(_, _, _, _)
 
 \* typed envelope: a string  ty || rlp(body)  (Transaction.DecodeRLP / Receipt.DecodeRLP: default branch)
 DecEnvelope(body, b, h) ==
@@ -227,7 +228,7 @@ Dec(s, b, p, e) ==
          [] s.t = "fix"   -> IF IsStr(b, h) /\ CLen(h) = s.n THEN Ok(Content(b, h), h.ce) ELSE Bad
          [] s.t = "opt"   -> IF h.k = "s" /\ IsEmptyItem(h) THEN Ok(<<>>, h.ce)           \* canonical nil = empty STRING
                              ELSE IF IsStr(b, h) /\ CLen(h) = s.n THEN Ok(<<Content(b, h)>>, h.ce) ELSE Bad
-         [] s.t = "list"  -> IF h.k # "l" THEN Bad ELSE DecElems(s, b, h.cs, h.ce, <<>>)
+         [] s.t = "list"  -> IF h.k # "l" THEN Bad ELSE DecElems(s, b, h.cs, h.ce)
          [] s.t = "struct" -> IF h.k # "l" THEN Bad ELSE DecFields(s.f, 1, b, h.cs, h.ce, <<>>)
          [] s.t = "reserved" -> DecReserved(b, h)
          [] s.t = "ext"   -> DecExt(b, h)
@@ -241,12 +242,17 @@ Dec(s, b, p, e) ==
                                    IF r.ok THEN Ok([ty |-> 0, body |-> r.v], h.ce) ELSE Bad
                               ELSE DecEnvelope(Receipt, b, h)
 
-\* elements of a list window; the bound is the DoS limit of Clauses.DecodeRLP
-DecElems(s, b, p, e, acc) ==
-  IF s.max >= 0 /\ Len(acc) > s.max THEN Bad
-  ELSE IF p = e THEN Ok(acc, e)
-  ELSE LET r == Dec(s.of, b, p, e) IN
-       IF ~r.ok THEN Bad ELSE DecElems(s, b, r.nx, e, Append(acc, r.v))
+\* elements of a list window; the bound is the DoS limit of Clauses.DecodeRLP.
+\* (An eager left fold over at most e - p steps - every element takes at least one byte - instead of a recursion:
+\*  TLC re-evaluates the lazy argument chain of a deep recursion, which is quadratic for 2500 clauses.)
+DecElems(s, b, p, e) ==
+  LET step(st, i) ==
+        IF ~st.ok \/ st.p = e THEN st
+        ELSE IF s.max >= 0 /\ Len(st.acc) >= s.max THEN [st EXCEPT !.ok = FALSE]          \* one element too many
+        ELSE LET r == Dec(s.of, b, st.p, e) IN
+             IF ~r.ok THEN [st EXCEPT !.ok = FALSE] ELSE [p |-> r.nx, acc |-> Append(st.acc, r.v), ok |-> TRUE]
+      fin == FoldLeft(step, [p |-> p, acc |-> <<>>, ok |-> TRUE], [i \in 1..(e - p) |-> i])
+  IN IF fin.ok /\ fin.p = e THEN Ok(fin.acc, e) ELSE Bad
 
 \* fields of a struct window: every field present (the trailing extension may be absent), nothing left over
 DecFields(fs, i, b, p, e, acc) ==
@@ -357,6 +363,10 @@ Encode(kind, v) ==
 
 \* the property
 RoundTrips(kind, x) == LET d == Decode(kind, x) IN d.ok => Encode(kind, d.v) = x
-\* Size() of a decoded object = length of its canonical encoding (= Len(x) when RoundTrips)
-SizeOf(kind, v) == Len(Encode(kind, v))
+\* Size() of a decoded object = length of its canonical encoding: Transaction.Size() counts MarshalBinary (whatever
+\* the entry point), Block.Size() the RLP of the block; -1: the type has no Size().
+SizeOf(kind, v) ==
+  CASE kind \in {"txbin", "txrlp"} -> Len(EncBinary(LegacyTx, DynTx, v))
+    [] kind = "block" -> Len(Enc(Block, v))
+    [] OTHER -> -1
 =============================================================================
